@@ -36,8 +36,8 @@ func TryParseEnum[T constraints.EnumShooter[T]](str string, v *T) bool {
 func IsEnum[T constraints.EnumShooter[T], TV constraints.Integer](value TV) bool {
 	var t T
 	for _, v := range t.Values() {
-		//the conversion must not change the value (300 is not uint8(44))
-		if v == T(value) && TV(v) == value {
+		//the conversion must not change the value (300 is not uint8(44), 255 is not int8(-1))
+		if v == T(value) && TV(v) == value && (v < 0) == (value < 0) {
 			return true
 		}
 	}
